@@ -153,12 +153,40 @@ def explore(ctx):
         term = f'({tcs}, {opl}, {coq_wdir(o.before, skip)}, {coq_wdir(observed, skip)})'
         cases.append((term, []))
     real_lines_errors(ctx, rnd)
+    sanity_faults(ctx, rnd)
     ctx.sample({'scenario_files': cases and gen(random.Random(1))['files'], 'extra': 'notes.txt, b/other.h, pre-existing .orig, modes'})
     bad = coq.corr_eval('c04', ['From CV Require Import Fs.Fs Fs.FsCorr.', 'From Coq Require Import String.', 'Open Scope string_scope.'], 'fs_check', cases, shard=60)
     ctx.corr_cases += len(cases)
     ctx.corr_disagree += len(bad)
     for b in bad[:5]:
         ctx.broke('correspondence', 'Fs model vs working directory after CVise.reduce', cases[b][0][:1500])
+
+
+def sanity_faults(ctx, rnd):
+    """an error exit during the initial sanity check (the test process cannot be started: EMFILE, ENOMEM ...): the run ends
+    with that error; the current directory and everything in the working directory are as before"""
+    for _ in range(5 if ctx.quick() else 40):
+        sc = gen(rnd)
+        sc['rules'] = [([], 'norun')]
+        sc['sanity_fault'] = True
+        o = driver.run_scenario(sc, ctx.tmp, mode='reduce', prepare=prepare_for(sc))
+        ctx.evaluations += 1
+        ctx.count('error-exit-in-sanity-check')
+        if hasattr(o, 'ctor_exc'):
+            continue
+        rep = {'scenario': sc, 'kind': 'sanity-fault'}
+        if getattr(o, 'code', 0) == 0:
+            ctx.broke('harness', 'sanity-fault scenario', 'the run did not end by an error')
+            continue
+        if o.cwd_after != o.cwd_before:
+            ctx.violation('cwd-changed', f'the test could not be started during the sanity check ({type(o.exc).__name__}): cwd {o.cwd_before} -> {o.cwd_after}', rep)
+        names = [n for n, _ in sc['files']]
+        for p_ in set(o.after) | set(o.before):
+            if p_ == 'test.sh' or any(p_ == n + '.orig' for n in names):
+                continue
+            if o.after.get(p_) != o.before.get(p_):
+                ctx.violation('foreign-change', f'error exit in the sanity check: {p_} changed', rep)
+        ctx.nontriv(('sanity-fault', repr(sc['files'])))
 
 
 def real_lines_errors(ctx, rnd):
@@ -221,10 +249,23 @@ def run_with_modes(ctx, sc):
     return o
 
 
+def replay_sanity_fault(ctx, sc):
+    sc['modes'] = {k: int(v) for k, v in sc['modes'].items()}
+    sc['files'] = [tuple(x) for x in sc['files']]
+    sc['extra_files'] = [tuple(x) for x in sc['extra_files']]
+    o = driver.run_scenario(sc, ctx.tmp, mode='reduce', prepare=prepare_for(sc))
+    print('replay: exit', getattr(o, 'code', None), 'cwd', o.cwd_before, '->', o.cwd_after)
+    if o.cwd_after != o.cwd_before:
+        ctx.violation('cwd-changed', f'cwd {o.cwd_before} -> {o.cwd_after}', {'scenario': sc, 'kind': 'sanity-fault'})
+
+
 def replay(ctx, payload):
     sc = payload['replay']['scenario']
     if sc.get('real_pass'):
         real_lines_errors(ctx, random.Random(1))
+        return
+    if payload['replay'].get('kind') == 'sanity-fault':
+        replay_sanity_fault(ctx, sc)
         return
     sc['modes'] = {k: int(v) for k, v in sc['modes'].items()}
     o = run_with_modes(ctx, sc)
